@@ -141,14 +141,14 @@ def run(prop, spec, tier, seed, scale, write_evidence):
         nw = r["c"][6]
         ks = list(range(nw)) if nw <= max_k else sorted(rnd.sample(range(nw), max_k))
         for k in ks:
-            plan.append((i, m, "diff", "EINTR at wait call %d (confluent program)" % k, "%s eintr_at=%d" % (line, k), r["c"][7]))
+            plan.append((i, m, "diff", "EINTR at wait call %d (confluent program)" % k, "%s eintr_at=%d" % (line, k), (r["c"][7], r["c"][10])))
         same_gran = []     # (the eventfd -> pipe fallback legitimately changes how many posts coalesce into one handler run: not compared)
         if m in (0, 1):
             same_gran.append(("epoll_create1->ENOSYS", "%d:%d:0:1000000" % (VKS["epoll_create1"], ENOSYS)))
         if m == 0:
             same_gran.append(("timerfd_create->ENOSYS", "%d:%d:0:1000000" % (VKS["timerfd_create"], ENOSYS)))
         for name, fparam in same_gran:
-            plan.append((i, m, "diff", name + " (confluent program)", "%s faults=%s" % (line, fparam), r["c"][7]))
+            plan.append((i, m, "diff", name + " (confluent program)", "%s faults=%s" % (line, fparam), (r["c"][7], r["c"][10])))
     # 3. exclusion strings (on a few programs)
     for s_, exp in exclusion_cases(rnd, int((40 if tier == "quick" else 400) * scale) + 1):
         i = rnd.randrange(len(casefiles))
@@ -170,6 +170,13 @@ def run(prop, spec, tier, seed, scale, write_evidence):
             if len(samples) < 6 and (len(samples) < 3 or kind != "eintr"):
                 samples.append(dict(program=i, profile=progs[i][0], method=METHODS[m] if m >= 0 else "(by exclusion)", fault=name, result="all oracles held; %d callbacks, %d wait calls" % (r["c"][4], r["c"][6])))
         if kind == "diff" and hit:
+            # the environment of a confluent program acts at the loop's blocking points, numbered in order: the two runs can only be
+            # compared if they blocked equally often (an interrupted wait after which a timer is due at once removes a blocking point and
+            # shifts every later environment action - the program is then a different one)
+            bhash, bblocks = bhash
+            if r["c"][10] != bblocks:
+                stats["diff_misaligned"] = stats.get("diff_misaligned", 0) + 1
+                continue
             stats["diff_compared"] += 1
             if r["c"][7] != bhash:
                 viols.append((line, dict(v="viol", tag="fault-changed-outcome", msg="per-object callback summary of the confluent program differs from the fault-free run (%s vs %s)" % (r["c"][7], bhash)), name))
@@ -223,7 +230,7 @@ def run(prop, spec, tier, seed, scale, write_evidence):
     wall = time.time() - t0
     ev = dict(property_id=prop, tier=tier, seed=seed, level="fault_enumeration",
               coverage=dict(evaluations=stats["runs"], distinct_nontrivial=len(triples),
-                            rule="programs = regression corpus + seeded generated loop programs of the C01-C09 profiles; for each program and each of the 4 poll methods a fault-free run records the number of wait-primitive calls made inside iv_main; then one run per k with EINTR injected at the k-th wait call (every k up to %d, sampled beyond), one run per optional-facility failure (epoll_create1 / epoll_create ENOSYS, epoll_pwait2 ENOSYS and EPERM from call 0/1/2/5/random, timerfd_create ENOSYS, ppoll ENOSYS from call k, eventfd2 EINVAL/ENOSYS, eventfd ENOSYS), and runs under generated IV_EXCLUDE_POLL_METHOD strings (subsets, orders, odd whitespace, unknown names; oracle = first non-excluded method, iv_fatal when all are excluded); every run is judged by all oracles of C01-C04, C06, C07, C09; iv_fd_pump relay sessions are run with the splice probe failing and succeeding under the C17 oracles; a plain generated campaign of loop programs (poll method, EINTR rate and fallback settings drawn per case) is judged by the same oracles, so that a guarantee broken under one method only is seen; in addition the CONFLUENT variant of every program (each callback acts only on its own object, driven by choices derived from (case, object, invocation number)) is run fault-free, with EINTR at every k, and with the fallbacks that keep the timeout granularity, and the per-object callback summary must be identical; non-trivial = (program, method, fault) triple in which the fault was actually reached (observed at the system-call boundary)" % max_k,
+                            rule="programs = regression corpus + seeded generated loop programs of the C01-C09 profiles; for each program and each of the 4 poll methods a fault-free run records the number of wait-primitive calls made inside iv_main; then one run per k with EINTR injected at the k-th wait call (every k up to %d, sampled beyond), one run per optional-facility failure (epoll_create1 / epoll_create ENOSYS, epoll_pwait2 ENOSYS and EPERM from call 0/1/2/5/random, timerfd_create ENOSYS, ppoll ENOSYS from call k, eventfd2 EINVAL/ENOSYS, eventfd ENOSYS), and runs under generated IV_EXCLUDE_POLL_METHOD strings (subsets, orders, odd whitespace, unknown names; oracle = first non-excluded method, iv_fatal when all are excluded); every run is judged by all oracles of C01-C04, C06, C07, C09; iv_fd_pump relay sessions are run with the splice probe failing and succeeding under the C17 oracles; a plain generated campaign of loop programs (poll method, EINTR rate and fallback settings drawn per case) is judged by the same oracles, so that a guarantee broken under one method only is seen; in addition the CONFLUENT variant of every program (each callback acts only on its own object, driven by choices derived from (case, object, invocation number)) is run fault-free, with EINTR at every k, and with the fallbacks that keep the timeout granularity, and the per-object callback summary must be identical whenever the two runs blocked equally often (the environment of a confluent program acts at the loop's blocking points in order; an interrupted wait after which a timer is due at once removes one and makes the rest a different program - such pairs are counted as misaligned, not compared); non-trivial = (program, method, fault) triple in which the fault was actually reached (observed at the system-call boundary)" % max_k,
                             samples=samples, programs=len(progs), exhaustive=False, eintr_k_exhaustive_up_to=max_k, **stats,
                             violations_reported=nviol, known_findings_reported=nknown),
               assumptions=["faults are injected at the libc boundary with errno values the kernel really produces", "EINTR enumeration is exhaustive in k per program up to the stated bound; programs are sampled"],
